@@ -225,17 +225,19 @@ ENV = st.sampled_from([None, None, [1, 2], [3, 4], [5, 8]])
 WORLD = st.sampled_from([1, 2, 3, 3, 4, 5, 6, 7, 8, 11, 16])
 # half of the datasets are tiny: fewer samples than ranks, padding longer than the draw itself
 SIZE = st.one_of(st.integers(1, 6), st.integers(1, 40))
-DIST = st.fixed_dictionaries({"N": SIZE, "W": WORLD, "env": ENV, "seed": st.integers(0, 2 ** 20), "epoch": st.sampled_from([0, 0, 1, 2, 7, 50]),
+# sampler seeds: the usual small ones and values around the 31/32-bit boundaries and beyond (the generators take 64-bit seeds)
+SEEDS = st.one_of(st.integers(0, 2 ** 20), st.sampled_from([2 ** 31 - 1, 2 ** 31, 2 ** 32 - 1, 2 ** 32 + 5, 2 ** 40 + 3]))
+DIST = st.fixed_dictionaries({"N": SIZE, "W": WORLD, "env": ENV, "seed": SEEDS, "epoch": st.sampled_from([0, 0, 1, 2, 7, 50]),
                               "repeats": st.sampled_from([1, 1, 2, 3, 4]), "shuffle": st.sampled_from([True, True, False]),
                               "drop_last": st.booleans()})
 BAL = st.fixed_dictionaries({"kind": st.just("balanced"), "counts": st.lists(st.integers(1, 7), min_size=2, max_size=6),
                              "key": st.integers(0, 999), "bulk": st.sampled_from(["list", "numpy", "tensor", "numpy:uint8", "numpy:int16", "tensor:int8", "tensor:int32"]),
                              "spc": st.one_of(st.none(), st.integers(1, 20)), "shuffle": st.booleans(), "W": WORLD, "env": ENV,
-                             "seed": st.integers(0, 2 ** 20), "epoch": st.sampled_from([0, 0, 1, 2, 7, 50])})
+                             "seed": SEEDS, "epoch": st.sampled_from([0, 0, 1, 2, 7, 50])})
 WEI = st.fixed_dictionaries({"kind": st.just("weighted"), "n": SIZE, "key": st.integers(0, 999), "env": ENV,
-                             "size": st.one_of(st.none(), st.integers(1, 40)), "W": WORLD, "seed": st.integers(0, 2 ** 20),
+                             "size": st.one_of(st.none(), st.integers(1, 40)), "W": WORLD, "seed": SEEDS,
                              "epoch": st.sampled_from([0, 0, 1, 2, 7, 50])})
-RAND = st.fixed_dictionaries({"N": st.integers(1, 40), "repeats": st.integers(1, 4), "seed": st.integers(0, 2 ** 20)})
+RAND = st.fixed_dictionaries({"N": st.integers(1, 40), "repeats": st.integers(1, 4), "seed": SEEDS})
 
 FACETS = [
     Facet("distributed", guarded("distributed", with_env(check_distributed)), strategy=lambda tier: DIST, budget={"quick": 2500, "thorough": 40000},
